@@ -14,8 +14,12 @@ AsyncRunner (properties C05, C06, C19).  No threads, no timing.
   real asyncio.wait.
 * Every nondeterministic choice (which futures complete, in which order they
   are processed, whether a future was already running when cancel() reaches
-  it, cancellation of the runner) is taken from a `Sched`, random or
-  enumerated exhaustively.
+  it, cancellation of the runner -- inside a wait, or, for BlockingRunner, an
+  interrupt raised inside the k-th executor.submit call before the job is
+  accepted) is taken from a `Sched`, random or enumerated exhaustively.
+* Whether a wait belongs to the main loop or to the finally block is decided
+  by context (learner.remove_unfinished() was called), not by its arguments;
+  the fake waits honour return_when the way a real pool would.
 
 A run yields a `Rec`: the configuration, the list of steps
 (event, observable actions during the step, snapshot of the runner's
